@@ -36,7 +36,7 @@ pub static C08: CheckSpec = CheckSpec {
     runs_thorough: 15_000_000,
     cap_quick_s: 60,
     cap_thorough_s: 900,
-    rule: "same histories as C07; at lookup steps and at the end of each run closest_keys / closest_values / closest_values_predicate (3 targets: local id, stored ids, ids at a chosen log2 distance 0..256 with the low bits set, random) are compared with the sorted post-iteration full scan, and nodes_by_distances (distinct distances incl. 0, >256, u64::MAX; cap 1..20) with the stored nodes at those distances; distinct = distinct hash of the operation/result log; the order in which the closest-node lookups and the distance lookups touch the table after each operation is chosen per check (both apply pending nodes whose timeout has run out); a fifth of the closest-iteration targets have a distance built word by word (64-bit) from runs of set and clear bits, single bits and their complements, and buckets around the word boundaries (63-65, 127-129, 191-193) are populated more often than chance",
+    rule: "same histories as C07; at lookup steps and at the end of each run closest_keys / closest_values / closest_values_predicate (3 targets: local id, stored ids, ids at a chosen log2 distance 0..256 with the low bits set, random) are compared with the sorted post-iteration full scan, and nodes_by_distances (distinct distances incl. 0, >256, u64::MAX; cap 1..20) with the stored nodes at those distances; distinct = distinct hash of the operation/result log; the order in which the closest-node lookups and the distance lookups touch the table after each operation is chosen per check (both apply pending nodes whose timeout has run out); a fifth of the closest-iteration targets have a distance built word by word (64-bit) from runs of set and clear bits, single bits and their complements, and buckets around the word boundaries (63-65, 127-129, 191-193) are populated more often than chance; one distance list in ten is long (200-400 distinct out-of-range values, sometimes every in-range distance as well) with the occupied distances at the front, at the end or anywhere between",
     components_real: REAL_TABLE,
     components_stub: STUB_CLOCK,
     enumerated: None,
@@ -254,7 +254,7 @@ pub static C14: CheckSpec = CheckSpec {
     runs_thorough: 600_000,
     cap_quick_s: 75,
     cap_thorough_s: 1200,
-    rule: "one run = a real service whose table holds 2-61 real signed records (padded to the 300-byte limit in two of three runs), max_nodes_response in {1,4,16,32,48}; 3-14 requests: FINDNODE with 0-6 distances (0, 256..249, random; duplicates, unsorted), request ids of 0-8 bytes, requesters that are table entries or strangers, PINGs from ports incl. 0; the HandlerIn::Response values are compared with the table read back through the public API and every packet is encrypted (AES-GCM) and encoded with the real codec to measure its wire size; every run is non-trivial; distinct = distinct event-log hash; Scenario 'full-stack' (W-F, see C09): every NODES and PONG a complete node puts on the wire is decrypted with the key log: records only at the distances of the FINDNODE it answers (matched by request id), never the requester's record, only entries of the sender's table (or its own record), total >= 1; PONG reports exactly the requester's address and the sender's current sequence number; record sizes: plain, maximal (300 bytes) or every size in between at byte granularity; PING sources are IPv4, IPv6 and IPv4-mapped IPv6 addresses with ports from the whole range, and the local record is sometimes updated (enr_insert) before a PING so that the PONG must carry the new sequence number; a quarter of the runs use tables of 100-176 nodes; one request in eight names (nearly) every distance 0..=256 in ascending, descending or rotated order, with duplicates and out-of-range values mixed in; a fifth of the nodes advertise no socket in their own record (they serve it for distance 0 all the same)",
+    rule: "one run = a real service whose table holds 2-61 real signed records (padded to the 300-byte limit in two of three runs), max_nodes_response in {1,4,16,32,48}; 3-14 requests: FINDNODE with 0-6 distances (0, 256..249, random; duplicates, unsorted), request ids of 0-8 bytes, requesters that are table entries or strangers, PINGs from ports incl. 0; the HandlerIn::Response values are compared with the table read back through the public API and every packet is encrypted (AES-GCM) and encoded with the real codec to measure its wire size; every run is non-trivial; distinct = distinct event-log hash; Scenario 'full-stack' (W-F, see C09): every NODES and PONG a complete node puts on the wire is decrypted with the key log: records only at the distances of the FINDNODE it answers (matched by request id), never the requester's record, only entries of the sender's table (or its own record), total >= 1; PONG reports exactly the requester's address and the sender's current sequence number; record sizes: plain, maximal (300 bytes) or every size in between at byte granularity; PING sources are IPv4, IPv6 and IPv4-mapped IPv6 addresses with ports from the whole range, and the local record is sometimes updated (enr_insert) before a PING so that the PONG must carry the new sequence number; a quarter of the runs use tables of 100-176 nodes; one request in eight names (nearly) every distance 0..=256 in ascending, descending or rotated order, with duplicates and out-of-range values mixed in; a fifth of the nodes advertise no socket in their own record (they serve it for distance 0 all the same); a quarter of the nodes listen dual-stack, where IPv4-mapped sources are what a socket reports for IPv4 senders: the answer goes to the observed source as it is",
     components_real: REAL_SERVICE,
     components_stub: STUB_SERVICE,
     enumerated: None,
@@ -273,7 +273,7 @@ pub static C17: CheckSpec = CheckSpec {
     components_real: REAL_SERVICE,
     components_stub: STUB_SERVICE,
     enumerated: None,
-    assumptions: &["single-stack runs: only connected outgoing table peers are eligible voters (a voter whose PING timed out is disconnected until one of its PONGs has been processed); dual-stack runs: PONGs of other peers count while votes of that family are missing, so the tally is known within bounds (certain votes = connected outgoing peers, possible votes = everybody else) and the margin clause is checked with those bounds (100 ms slack on expiry)", "the connectivity check (auto_nat_listen_duration 20 s; a quarter of the single-stack and half of the dual-stack runs) removes an elected socket nobody connects to: that removal is not a PONG-caused change (checked for seq/signature only), and since votes of the revoked family are not counted for hours afterwards the reference stops following that family for the rest of the run"],
+    assumptions: &["single-stack runs: only connected outgoing table peers are eligible voters (a voter whose PING timed out is disconnected until one of its PONGs has been processed); dual-stack runs: PONGs of other peers count while votes of that family are missing, so the tally is known within bounds (certain votes = connected outgoing peers, possible votes = everybody else) and the minimum and margin clauses are checked with those bounds; in both modes a vote within 100 ms of its expiry may or may not have counted (the service decides when the PONG is processed, the check reads the clock a moment later)", "the connectivity check (auto_nat_listen_duration 20 s; a quarter of the single-stack and half of the dual-stack runs) removes an elected socket nobody connects to: that removal is not a PONG-caused change (checked for seq/signature only), and since votes of the revoked family are not counted for hours afterwards the reference stops following that family for the rest of the run"],
 };
 
 pub static C20: CheckSpec = CheckSpec {
@@ -284,7 +284,7 @@ pub static C20: CheckSpec = CheckSpec {
     runs_thorough: 2_000_000,
     cap_quick_s: 75,
     cap_thorough_s: 1200,
-    rule: "one run = 1-150 TALKREQs from 5 peers delivered to a real service; the application (harness) takes the TalkRequest objects from the event stream and, in tape order, responds, drops or holds them; stream modes: drained, never drained (fills up), receiver dropped; in one run of three the service is shut down at a chosen point and the (scripted) handler goes away with it, after which held requests are responded to or dropped; while running every TALKREQ must get exactly one TALKRESP with its id to its address carrying the application's payload or an empty one; after shutdown respond() must return an error and nothing may panic; every run is non-trivial; distinct = distinct event-log hash; the application may sit on requests for 50 ms .. 10 min before answering or dropping them; Scenario 'full-stack' (W-F, see C09): the applications of complete nodes answer or drop every TalkRequest event at once; per (node, requester, request id) the TALKRESP packets on the wire (decrypted with the key log) never outnumber the events, carry a payload the application produced, and equal the events in number at the end unless the node restarted or a handler dropped a response for lack of a session; the application's payload may be explicitly empty; the application sometimes panics while it holds a request (the request object is dropped by the unwinding); payload size classes: empty, small, around the largest that fits a datagram (1100..1300 bytes), 5000 bytes; the five requesters are unknown to the node, known through a session (dual-stack runs: with an IPv6 endpoint in the record as well) or known from a table entry whose record advertises another port or address than the one they send from: the response belongs to the source address of the request in every case; a quarter of the runs listen dual-stack; the requester of a held request is sometimes banned (node id or IP) before the application responds or drops: the request is still owed exactly one response",
+    rule: "one run = 1-150 TALKREQs from 5 peers delivered to a real service; the application (harness) takes the TalkRequest objects from the event stream and, in tape order, responds, drops or holds them; stream modes: drained, never drained (fills up), receiver dropped; in one run of three the service is shut down at a chosen point and the (scripted) handler goes away with it, after which held requests are responded to or dropped; while running every TALKREQ must get exactly one TALKRESP with its id to its address carrying the application's payload or an empty one; after shutdown respond() must return an error and nothing may panic; every run is non-trivial; distinct = distinct event-log hash; the application may sit on requests for 50 ms .. 10 min before answering or dropping them; Scenario 'full-stack' (W-F, see C09): the applications of complete nodes answer or drop every TalkRequest event at once; per (node, requester, request id) the TALKRESP packets on the wire (decrypted with the key log) never outnumber the events, carry a payload the application produced, and equal the events in number at the end unless the node restarted or a handler dropped a response for lack of a session; the application's payload may be explicitly empty; the application sometimes panics while it holds a request (the request object is dropped by the unwinding); payload size classes: empty, small, around the largest that fits a datagram (1100..1300 bytes), 5000 bytes; the five requesters are unknown to the node, known through a session (dual-stack runs: with an IPv6 endpoint in the record as well) or known from a table entry whose record advertises another port or address than the one they send from: the response belongs to the source address of the request in every case; a quarter of the runs listen dual-stack; the requester of a held request is sometimes banned (node id or IP) before the application responds or drops: the request is still owed exactly one response; in dual-stack runs half of the requesters send from the IPv4-mapped form of their address (the response is owed to exactly that address)",
     components_real: REAL_SERVICE,
     components_stub: STUB_SERVICE,
     enumerated: None,
@@ -332,7 +332,7 @@ pub static C02: CheckSpec = CheckSpec {
     runs_thorough: 2 * worlds::h_tamper::ENUM_SPACE + 200_000,
     cap_quick_s: 75,
     cap_thorough_s: 1500,
-    rule: "enumerated half: 6 base exchanges (fresh recipient session, initiator with multi-packet NODES, record-less contact awaiting the record, re-key after session loss, simultaneous dial with a third node, NODES in 2 packets then reverse PING) x datagram index 0..9 x mutation index j (every single-bit flip, every truncation length, a 1-byte insertion at every offset, 1..8 junk bytes appended to the auth-data with the masked size field patched to cover them, presentation from the sender's IP on another UDP port; j beyond that is an empty case that ends at once): 198540 cases, all executed by the thorough tier, a fixed-stride sample by the quick tier; exactly one genuine datagram is replaced by its mutation per run. explored half: tape-chosen base plus extra requests, 5-40 % of the datagrams mutated by bit flip / truncation / insertion / auth-data growth with patched size field / header-body splice with an earlier datagram / misdelivery / re-masking for another node / spoofed source, with jitter and duplicates, sometimes delivering the genuine datagram as well; non-trivial = at least one mutated datagram was delivered; distinct = distinct event-log hash; exploration also lets a party with keys of its own answer a node's WHOAREYOU in the challenged peer's name from the peer's address (own/peer's/no record, lower/equal/higher seq): nothing it sends may be delivered as the peer's; explored runs: a fifth on an IPv6-only network, peers whose record advertises another port than they send from, and datagrams presented from that advertised socket; a delivery is justified if any datagram that carried the message from the attributed address belongs to a session established with that address; exploration injects messages in a peer's name from its address sealed with trivial keys (all-zero, all-ones); explored runs: responders sometimes announce a NODES total that is not the number of packets they send (3, 16, 40, 2^64-1); explored responders sometimes seal, under their genuine session keys, a hand-made NODES plaintext in which one of three records has a damaged signature (a peer need not use this crate's encoder): nothing that differs from what the peer encrypted may be delivered",
+    rule: "enumerated half: 6 base exchanges (fresh recipient session, initiator with multi-packet NODES, record-less contact awaiting the record, re-key after session loss, simultaneous dial with a third node, NODES in 2 packets then reverse PING) x datagram index 0..9 x mutation index j (every single-bit flip, every truncation length, a 1-byte insertion at every offset, 1..8 junk bytes appended to the auth-data with the masked size field patched to cover them, presentation from the sender's IP on another UDP port; j beyond that is an empty case that ends at once): 198540 cases, all executed by the thorough tier, a fixed-stride sample by the quick tier; exactly one genuine datagram is replaced by its mutation per run. explored half: tape-chosen base plus extra requests, 5-40 % of the datagrams mutated by bit flip / truncation / insertion / auth-data growth with patched size field / header-body splice with an earlier datagram / misdelivery / re-masking for another node / spoofed source, with jitter and duplicates, sometimes delivering the genuine datagram as well; non-trivial = at least one mutated datagram was delivered; distinct = distinct event-log hash; exploration also lets a party with keys of its own answer a node's WHOAREYOU in the challenged peer's name from the peer's address (own/peer's/no record, lower/equal/higher seq): nothing it sends may be delivered as the peer's; explored runs: a fifth on an IPv6-only network, peers whose record advertises another port than they send from, and datagrams presented from that advertised socket; a delivery is justified if any datagram that carried the message from the attributed address belongs to a session established with that address; exploration injects messages in a peer's name from its address sealed with trivial keys (all-zero, all-ones); explored runs: responders sometimes announce a NODES total that is not the number of packets they send (3, 16, 40, 2^64-1); explored responders sometimes seal, under their genuine session keys, a hand-made NODES plaintext in which one of three records has a damaged signature (a peer need not use this crate's encoder): nothing that differs from what the peer encrypted may be delivered; explored mutations include presentation of a genuine datagram from the IPv4-mapped IPv6 alias of its source (same IP, same port, other address family)",
     components_real: REAL_HANDLER,
     components_stub: STUB_HANDLER,
     enumerated: Some(("tamper-enumerated", worlds::h_tamper::ENUM_SPACE)),
